@@ -34,7 +34,7 @@ CHECKS = {
  "C06": ("exploration",
          "bounded-exhaustive input enumeration through the whole pipeline with deterministic non-termination detection (pass-state digests + fuel via hook H1), abort isolation in child processes",
          "DESIGN.md §4 C06",
-         "Single-character edits of the production-covering corpus, short token strings, an integer sweep (17 directive positions x 31 values incl. wide literals; all pairs for / and %), all import graphs over 2-3 (4) files, convergence stress programs and real-binary file-system faults are pushed through parse, both code generator configurations, formatter and listing. A panic, an aborted child (stack overflow, allocation failure), a recurring block of pass states, exhausted fuel, a silent failure or a diagnostic pointing outside the project is a finding.",
+         "Single-character edits of the production-covering corpus, short token strings, an integer sweep (17 directive positions x 31 values incl. wide literals; all pairs for / and %), all import graphs over 2-3 (4) files, convergence stress programs, all nests of depth <= 3 (4) over 14 block constructs x 3 leaves, self- and mutually recursive macros, and real-binary file-system faults are pushed through parse, both code generator configurations, formatter and listing. A panic, an aborted child (stack overflow, allocation failure), a recurring block of pass states, exhausted fuel, a silent failure or a diagnostic pointing outside the project is a finding.",
          "Pass budget 64 and fuel 300k per pass are caps (reported, never verdicts); stages without a pass loop are guarded by a 10 s horizon in child processes; release arithmetic."),
  "C07": ("exploration",
          "bounded-exhaustive enumeration of construct nests, differential against an independent AST-level hand expansion",
